@@ -5,6 +5,7 @@
 //!        harness replay <ID> <input> <report.json> [workdir]
 mod common;
 mod crc;
+mod diagpos;
 mod codec;
 mod front;
 mod asm;
@@ -31,7 +32,13 @@ fn dispatch(id: &str, cx: &mut Cx)
 		"C14" => scope::run(id, cx),
 		"C07" | "C08" => simp::run(id, cx),
 		"C09" => parse::run(id, cx),
-		"C10" | "C11" | "C12" => lex::run(id, cx),
+		"C10" | "C11" => lex::run(id, cx),
+		"C12" =>
+		{
+			// tokens and elements (lexer/parser), then diagnostics of the whole pipeline
+			if !cx.replay.as_deref().is_some_and(|r| r.starts_with("diag ")) {lex::run(id, cx);}
+			diagpos::run(cx);
+		},
 		"C15" => map::run(id, cx),
 		"C16" => uf2::run(id, cx),
 		"C17" => crc::run(id, cx),
